@@ -17,6 +17,9 @@ pub struct WireState {
     pub send_attempts: usize,
     /// indices of send attempts that must wait for `release`
     pub block_sends: BTreeSet<usize>,
+    /// of those, the attempts whose bytes reach the peer BEFORE the send suspends (e.g. written
+    /// but not yet flushed/acknowledged), as opposed to being held back entirely
+    pub block_after_write: BTreeSet<usize>,
     /// a send that is currently blocked (attempt index)
     pub blocked: Option<usize>,
     pub released: BTreeSet<usize>,
@@ -120,9 +123,13 @@ impl SendHandle for MemSender {
             st.send_attempts += 1;
             if st.block_sends.contains(&idx) {
                 st.blocked = Some(idx);
+                if st.block_after_write.contains(&idx) {
+                    st.sent.push(data.to_vec());
+                }
             }
             idx
         };
+        let already_written = self.wire.lock().block_after_write.contains(&idx) && self.wire.lock().block_sends.contains(&idx);
         let wire = self.wire.clone();
         poll_fn(move |cx| {
             let mut st = wire.lock();
@@ -139,7 +146,9 @@ impl SendHandle for MemSender {
             }
         })
         .await;
-        self.wire.lock().sent.push(data.to_vec());
+        if !already_written {
+            self.wire.lock().sent.push(data.to_vec());
+        }
         Ok(())
     }
 }
